@@ -239,6 +239,23 @@ tok!(c16_tok_ctx_textarea_end_s2, b"</textarea", 2, "textarea", 12, 14);
 tok!(c16_tok_ctx_plaintext_s2, b"", 2, "plaintext", 2, 13);
 tok!(c16_tok_ctx_style_s2, b"</", 2, "style", 4, 9);
 
+// deeper suffixes in the states that read every byte once (cheap in path mode)
+tok!(c16_tok_comment_s4, b"<!--", 4, "", 8, 10);
+tok!(c16_tok_comment_dd_s3, b"<!--a--", 3, "", 10, 12);
+tok!(c16_tok_comment_ddd_s3, b"<!---", 3, "", 8, 10);
+tok!(c16_tok_comment_bang_s2, b"<!--a--!", 2, "", 10, 12);
+tok!(c16_tok_cdata_s3, b"<![CDATA[", 3, "", 12, 14);
+tok!(c16_tok_cdata_br_s3, b"<![CDATA[a]]", 3, "", 15, 17);
+tok!(c16_tok_cdata_br1_s3, b"<![CDATA[]", 3, "", 13, 15);
+tok!(c16_tok_bogus_s3, b"<?", 3, "", 5, 7);
+tok!(c16_tok_bogus_s4, b"<?", 4, "", 6, 8);
+tok!(c16_tok_bogus_end_s3, b"</ ", 3, "", 6, 8);
+tok!(c16_tok_doctype_s3, b"<!DOCTYPE ", 3, "", 13, 15);
+tok!(c16_tok_decl_other_s3, b"<!a", 3, "", 6, 8);
+tok!(c16_tok_ctx_plaintext_s3, b"", 3, "plaintext", 3, 13);
+tok!(c16_tok_ctx_plaintext_s4, b"x", 4, "plaintext", 5, 13);
+tok!(c16_tok_text_s3_after_comment, b"<!---->", 2, "", 9, 11);
+
 // single symbolic byte in the states whose 2-byte exploration runs past 25 min
 tok!(c16_tok_lt_s1, b"<", 1, "", 2, 4);
 tok!(c16_tok_tag_s1, b"<a", 1, "", 3, 5);
